@@ -34,6 +34,7 @@ func obsTerm(o ModelObs) string {
 
 type tieCase struct {
 	desc  string
+	file  string // Coq term of the converted file
 	term  string // Coq term of type list (string * obs) describing the disagreement (empty = agreement)
 	nodes int
 }
@@ -51,7 +52,7 @@ func writeShards(dir, prefix string, cases []tieCase, perShard int) []string {
 		b.WriteString(tieHeader)
 		var idx []string
 		for i, c := range cur {
-			fmt.Fprintf(&b, "Definition r%d := Eval vm_compute in (%s).\n", i, c.term)
+			fmt.Fprintf(&b, "Definition f%d : file :=\n %s.\nDefinition r%d := Eval vm_compute in (%s).\n", i, c.file, i, strings.ReplaceAll(c.term, "@FILE@", fmt.Sprintf("f%d", i)))
 			idx = append(idx, c.desc)
 		}
 		b.WriteString("Definition RES := [")
@@ -120,8 +121,8 @@ func writeTie(s *Shared, dir string, all []*Pkg, obs []*FileRun, starts map[*Fil
 				warnTotal += len(o.Offs)
 				items = append(items, fmt.Sprintf("(%s, %s)", coqfmt.Str(name), obsTerm(o)))
 			}
-			tc := tieCase{desc: p.Name + "/" + f.Name + " " + p.Origin, nodes: n,
-				term: fmt.Sprintf("case_detail\n %s\n [%s]", term, strings.Join(items, "; "))}
+			tc := tieCase{desc: p.Name + "/" + f.Name + " " + p.Origin, nodes: n, file: term,
+				term: fmt.Sprintf("case_detail @FILE@ [%s]", strings.Join(items, "; "))}
 			switch p.Stream {
 			case "S1":
 				c07 = append(c07, tc)
@@ -140,8 +141,8 @@ func writeTie(s *Shared, dir string, all []*Pkg, obs []*FileRun, starts map[*Fil
 						its = append(its, fmt.Sprintf("(%s, [%s])", coqfmt.Str(name), strings.Join(strs, ";")))
 					}
 				}
-				c20 = append(c20, tieCase{desc: p.Name + "/" + f.Name, nodes: n,
-					term: fmt.Sprintf("namesake_detail\n %s\n [%s]", term, strings.Join(its, "; "))})
+				c20 = append(c20, tieCase{desc: p.Name + "/" + f.Name, nodes: n, file: term,
+					term: fmt.Sprintf("namesake_detail @FILE@ [%s]", strings.Join(its, "; "))})
 			}
 		}
 	}
